@@ -806,7 +806,10 @@ def from_json(ops):
 # ---------------------------------------------------------------- run
 
 def run(ctx):
-    ok = common.proofs(ctx, 'C20', EXTRACT, COMPONENTS)
+    import time
+    t0 = time.time()
+    common.proofs(ctx, 'C20', EXTRACT, COMPONENTS)
+    t1 = time.time()
     ctx.assumptions = [
         'the awscrt package is a stub (harness/fake_awscrt): the real CRT client, its native threads and the thread on '
         'which it runs on_done / on_progress / on_body are NOT available here; callbacks run synchronously on the '
@@ -835,8 +838,11 @@ def run(ctx):
                 correspondence(ctx, patch, root)
             else:
                 search_after_break(ctx, patch, root)
+        t2 = time.time()
         for rule, what in thread_tests(ctx):
             ctx.report(f'oracle:{rule}:thread-test', what, {'kind': 'schedule', 'case': {'thread_test': rule}})
+        ctx.notes.append(f'timing: proofs+build {t1 - t0:.1f}s (includes waiting for the shared build lock), '
+                         f'correspondence {t2 - t1:.1f}s, thread tests {time.time() - t2:.1f}s')
     finally:
         shutil.rmtree(root, ignore_errors=True)
 
@@ -853,10 +859,9 @@ def gen_cases(ctx, source_permits):
     depth = 5 if ctx.thorough() else 4
     for ops in exhaustive(depth):
         cases.append(('exhaustive', 2, ops))
-    if not ctx.thorough():
-        deeper = [o for o in exhaustive(depth + 1) if len(o) == depth + 1]
-        for ops in ctx.rng('depth5').sample(deeper, 1500):
-            cases.append(('exhaustive-sample', 2, ops))
+    deeper = [o for o in exhaustive(depth + 1) if len(o) == depth + 1]
+    for ops in ctx.rng('deeper').sample(deeper, 15000 if ctx.thorough() else 1500):
+        cases.append(('exhaustive-sample', 2, ops))
     rng = ctx.rng('random')
     for _ in range(6000 if ctx.thorough() else 1200):
         p, ops = random_case(rng)
@@ -892,6 +897,7 @@ def correspondence(ctx, patch, root):
     mres = model_res_fn(source_permits)
     reported = 0
     exhaustive_n = 0
+    mismatches = []
     for (stream, p, ops), line, mout in zip(cases, lines, model):
         trace, bad, count = run_impl(patch, root, p, ops, model_results(mout))
         h = case_hist(ops)
@@ -899,7 +905,7 @@ def correspondence(ctx, patch, root):
         ctx.count('crt', 1, nontrivial_key=(line if nontrivial else None), stream=stream, **h)
         if stream == 'exhaustive':
             exhaustive_n += 1
-        if stream in ('exhaustive', 'random', 'big') and len(ops) >= 4:
+        if stream in ('corpus', 'exhaustive', 'random', 'big') and len(ops) >= 4:
             ctx.sample({'component': 'crt-' + stream, 'model_cmd': line if len(line) < 400 else line[:400] + '...',
                         'impl_and_model_trace': trace if len(trace) < 1200 else trace[:1200] + '...'}, limit=1)
         if bad and reported < 8:
@@ -912,17 +918,20 @@ def correspondence(ctx, patch, root):
                        f'{what} [permits={count}, ops: {" ".join(op_token(o) for o in small)}]',
                        {'kind': 'history', 'component': 'crt',
                         'case': {'permits': p, 'ops': jsonable(small)}, 'rule': rule})
-        elif trace != mout and reported < 8:
-            reported += 1
-            isegs, msegs = trace.split(' | '), mout.split(' | ')
-            k = next((j for j in range(min(len(isegs), len(msegs))) if isegs[j] != msegs[j]), min(len(isegs), len(msegs)))
-            ctx.report(f'corr:crt:{stream}',
-                       f'real CRTTransferManager and model/Crt.v disagree at op {k} ({op_token(ops[k]) if k < len(ops) else "?"}) '
-                       f'of [{line if len(line) < 300 else line[:300] + "..."}]: impl={isegs[k] if k < len(isegs) else None} '
-                       f'model={msegs[k] if k < len(msegs) else None}; the C20 oracle holds on the implementation for this sequence',
-                       {'kind': 'correspondence', 'theorem_or_correspondence': 'differential crt (real manager on stub awscrt vs extracted Crt.step)',
-                        'case': {'permits': p, 'ops': jsonable(ops[:k + 1])}, 'impl': isegs[k] if k < len(isegs) else None,
-                        'model': msegs[k] if k < len(msegs) else None}, no_input=True)
+        elif trace != mout:
+            mismatches.append((len(ops), len(mismatches), stream, p, ops, line, trace, mout))
+    # correspondence failures: the shortest sequences first
+    for (_, _, stream, p, ops, line, trace, mout) in sorted(mismatches)[:3]:
+        isegs, msegs = trace.split(' | '), mout.split(' | ')
+        k = next((j for j in range(min(len(isegs), len(msegs))) if isegs[j] != msegs[j]), min(len(isegs), len(msegs)))
+        ctx.report(f'corr:crt:{stream}:{op_token(ops[k]) if k < len(ops) else "?"}',
+                   f'real CRTTransferManager and model/Crt.v disagree at op {k} ({op_token(ops[k]) if k < len(ops) else "?"}) '
+                   f'of [{line if len(line) < 300 else line[:300] + "..."}]: impl={isegs[k] if k < len(isegs) else None} '
+                   f'model={msegs[k] if k < len(msegs) else None}; the C20 oracle holds on the implementation for this sequence',
+                   {'kind': 'correspondence', 'theorem_or_correspondence': 'differential crt (real manager on stub awscrt vs extracted Crt.step)',
+                    'case': {'permits': p, 'ops': jsonable(ops[:k + 1])}, 'impl': isegs[k] if k < len(isegs) else None,
+                    'model': msegs[k] if k < len(msegs) else None}, no_input=True)
+    ctx.cov['components'].setdefault('crt', {})['mismatches'] = len(mismatches)
     ctx.cov['components'].setdefault('crt', {})['exhaustive_sequences'] = exhaustive_n
     ctx.cov['traces_validated_against_impl'] = len(cases)
 
